@@ -5,9 +5,9 @@ mitmproxy/net/check.py is_valid_host (through ClientHello.sni)."""
 from lib.coqterm import cbytes, cbool, copt, cN, clist, cpair, hx, unhx
 
 ID = "C13"
-QUICK_N = 1800
-THOROUGH_N = 40000
-SHARD = 130
+QUICK_N = 2000
+THOROUGH_N = 20000
+SHARD = 100
 RULE = ("55% generated ClientHellos (TLS and DTLS; versions, session ids, cookies, GREASE and ordinary cipher lists, "
         "no/empty/filled extension block, SNI hosts from a token dictionary incl. IDNA, IP literals, over-long and "
         "malformed names, ALPN lists, GREASE/unknown/empty extensions) wrapped into 1..6 records (TLS: payload split; "
@@ -174,7 +174,7 @@ def segment(rng, recs, dtls):
 
 def mutate(rng, dtls, tags):
     """a stream that is (mostly) not a well-formed hello"""
-    m = rng.randint(0, 15)
+    m = rng.choice([0, 1, 1, 1, 2, 3, 4, 5, 6, 7, 8, 9, 10, 11, 12, 13, 14, 15])
     body = gen_hello_body(rng, dtls)
     recs = None
     if m == 0:      # duplicated SNI / ALPN extension, second one different
